@@ -11,7 +11,7 @@ STATS = {'queries': 0, 'time': 0.0, 'by_backend': {}, 'unknown': 0, 'feas': 0, '
 
 def timeout_ms():
     tier = os.environ.get('VERIF_TIER', 'quick')
-    return int(os.environ.get('PYVC_TIMEOUT_MS', '60000' if tier == 'thorough' else '20000'))
+    return int(os.environ.get('PYVC_TIMEOUT_MS', '60000' if tier == 'thorough' else '10000'))
 
 
 def _run_external(smt2, binary, args, timeout_s):
@@ -100,46 +100,73 @@ def feasible(assertions, timeout=800):
     return r != z3.unsat
 
 
+def _kind(c):
+    n = c.decl().name()
+    return n.split('!')[0]
+
+
+def _solve(assertions, timeout, simple=False):
+    s = z3.SimpleSolver() if simple else z3.Solver()
+    s.set('timeout', timeout)
+    s.add(*assertions)
+    return s, s.check()
+
+
 def prove(assumptions, goal, timeout=None, want_model=True):
-    """Returns (verdict, backend, model|reason, seconds): verdict in
-    'proved', 'refuted', 'unknown'."""
+    """Returns (verdict, backend, model|reason, seconds): verdict in 'proved', 'refuted', 'unknown'.
+    A conjunction is proved conjunct by conjunct; named definitions (sequence lambdas, opaque invariants) are
+    revealed in stages: none, those of the kinds occurring in the goal, all."""
     timeout = timeout or timeout_ms()
     t0 = time.time()
-    defs = collect_defs(list(assumptions) + [goal])
-    weak_model = None
-    if defs:
-        w = z3.Solver()
-        w.set('timeout', min(timeout, 5000))
-        w.add(*assumptions)
-        for c, exact, light in defs:
-            w.add(*light)
-        w.add(z3.Not(goal))
-        rw = w.check()
-        if rw == z3.unsat:
+    goal_s = z3.simplify(goal)
+    conjuncts = list(goal_s.children()) if z3.is_and(goal_s) else [goal_s]
+    backend = 'z3-%s' % z3.get_version_string()
+    used = set()
+    for g in conjuncts:
+        v, b, m = _prove1(list(assumptions), g, timeout)
+        used.add(b)
+        if v != 'proved':
             dt = time.time() - t0
             STATS['queries'] += 1
             STATS['time'] += dt
-            k = 'z3-%s' % z3.get_version_string()
-            STATS['by_backend'][k] = STATS['by_backend'].get(k, 0) + 1
-            return ('proved', k, None, dt)
-        if rw == z3.sat:
-            weak_model = w.model()
-    s = z3.Solver()
-    s.set('timeout', timeout)
-    s.add(*assumptions)
-    for c, exact, light in defs:
-        s.add(exact)
-    s.add(z3.Not(goal))
-    r = s.check()
+            if v == 'unknown':
+                STATS['unknown'] += 1
+            return (v, b, m, dt)
     dt = time.time() - t0
     STATS['queries'] += 1
     STATS['time'] += dt
+    b = sorted(used)[-1] if used else backend
+    STATS['by_backend'][b] = STATS['by_backend'].get(b, 0) + 1
+    return ('proved', b, None, dt)
+
+
+def _prove1(assumptions, goal, timeout):
+    backend = 'z3-%s' % z3.get_version_string()
+    if z3.is_true(goal):
+        return 'proved', 'simplifier', None
+    all_defs = collect_defs(assumptions + [goal])
+    neg = z3.Not(goal)
+    weak_model = None
+    light = [l for c, exact, ls in all_defs for l in ls]
+    if all_defs:
+        w, rw = _solve(assumptions + light + [neg], min(timeout, 1500))
+        if rw == z3.unsat:
+            return 'proved', backend, None
+        if rw == z3.sat:
+            weak_model = w.model()
+        goal_defs = collect_defs([goal])
+        kinds = {_kind(c) for c, e, l in goal_defs}
+        staged = [d for d in all_defs if _kind(d[0]) in kinds]
+        if kinds and len(staged) < len(all_defs):
+            closure = collect_defs([d[1] for d in staged] + [goal])
+            w, rw = _solve(assumptions + light + [d[1] for d in closure] + [neg], min(timeout, 5000))
+            if rw == z3.unsat:
+                return 'proved', backend, None
+    s, r = _solve(assumptions + light + [d[1] for d in all_defs] + [neg], timeout)
     if r == z3.unsat:
-        STATS['by_backend']['z3-%s' % z3.get_version_string()] = STATS['by_backend'].get('z3-%s' % z3.get_version_string(), 0) + 1
-        return ('proved', 'z3-%s' % z3.get_version_string(), None, dt)
+        return 'proved', backend, None
     if r == z3.sat:
-        return ('refuted', 'z3-%s' % z3.get_version_string(), s.model(), dt)
-    # unknown: other back ends
+        return 'refuted', backend, s.model()
     reason = s.reason_unknown()
     smt2 = None
     try:
@@ -151,11 +178,7 @@ def prove(assumptions, goal, timeout=None, want_model=True):
                                    ('cvc5-1.0.3', '/usr/bin/cvc5', ['--tlimit=%d' % timeout, '--arrays-exp'])):
             if not os.path.exists(binary):
                 continue
-            t1 = time.time()
             first = _run_external(smt2, binary, args, timeout // 1000)
-            STATS['time'] += time.time() - t1
             if first == 'unsat':
-                STATS['by_backend'][name] = STATS['by_backend'].get(name, 0) + 1
-                return ('proved', name, None, time.time() - t0)
-    STATS['unknown'] += 1
-    return ('unknown', 'all', (reason, weak_model), time.time() - t0)
+                return 'proved', name, None
+    return 'unknown', 'all', (reason, weak_model)
